@@ -20,6 +20,13 @@ package operations
 //@   ensures [trailer-on-success] err == nil && hdrWrites > old(hdrWrites) ==> trailers > old(trailers)
 //@   property C09
 //@   at call WriteHeader#1 assert [sealed-before-write] o.pipes.Encryption != "" ==> hdrSealed[arg_hdr]
+//@   property C11
+//@   at call GetWriter assert [drive-taken-under-operation-lock] mutexHeld[addr(o.diskOperationLock)]
+//@   at call CloseWriter assert [drive-released-under-operation-lock] mutexHeld[addr(o.diskOperationLock)]
+//@   at call GetReader assert [reader-taken-under-operation-lock] mutexHeld[addr(o.diskOperationLock)]
+//@   at call CloseReader assert [reader-released-under-operation-lock] mutexHeld[addr(o.diskOperationLock)]
+//@   at call Index assert [index-rebuilt-under-operation-lock] mutexHeld[addr(o.diskOperationLock)]
+//@   at call Fetch assert [content-read-under-operation-lock] mutexHeld[addr(o.diskOperationLock)]
 //@   property C10 also C11
 //@   safety C10
 //@   requires o != nil && opsReady(o) && opsIdle(o)
@@ -42,6 +49,13 @@ package operations
 //@   ensures [trailer-on-success] err == nil && hdrWrites > old(hdrWrites) ==> trailers > old(trailers)
 //@   property C09
 //@   at call WriteHeader#1 assert [sealed-before-write] o.pipes.Encryption != "" ==> hdrSealed[arg_hdr]
+//@   property C11
+//@   at call GetWriter assert [drive-taken-under-operation-lock] mutexHeld[addr(o.diskOperationLock)]
+//@   at call CloseWriter assert [drive-released-under-operation-lock] mutexHeld[addr(o.diskOperationLock)]
+//@   at call GetReader assert [reader-taken-under-operation-lock] mutexHeld[addr(o.diskOperationLock)]
+//@   at call CloseReader assert [reader-released-under-operation-lock] mutexHeld[addr(o.diskOperationLock)]
+//@   at call Index assert [index-rebuilt-under-operation-lock] mutexHeld[addr(o.diskOperationLock)]
+//@   at call Fetch assert [content-read-under-operation-lock] mutexHeld[addr(o.diskOperationLock)]
 //@   property C10 also C11
 //@   safety C10
 //@   requires o != nil && opsReady(o) && opsIdle(o)
@@ -52,6 +66,13 @@ package operations
 //@ func (*Operations).Restore
 //@   property C04
 //@   at call Fetch assert [uses-row-position] arg_record == dbhdr.Record && arg_block == dbhdr.Block
+//@   property C11
+//@   at call GetWriter assert [drive-taken-under-operation-lock] mutexHeld[addr(o.diskOperationLock)]
+//@   at call CloseWriter assert [drive-released-under-operation-lock] mutexHeld[addr(o.diskOperationLock)]
+//@   at call GetReader assert [reader-taken-under-operation-lock] mutexHeld[addr(o.diskOperationLock)]
+//@   at call CloseReader assert [reader-released-under-operation-lock] mutexHeld[addr(o.diskOperationLock)]
+//@   at call Index assert [index-rebuilt-under-operation-lock] mutexHeld[addr(o.diskOperationLock)]
+//@   at call Fetch assert [content-read-under-operation-lock] mutexHeld[addr(o.diskOperationLock)]
 //@   property C10 also C11
 //@   safety C10
 //@   requires o != nil && opsReady(o) && opsIdle(o)
@@ -84,9 +105,17 @@ package operations
 //@   ensures [trailer-on-success] err == nil && hdrWrites > old(hdrWrites) ==> trailers > old(trailers)
 //@   property C09
 //@   at call WriteHeader#1 assert [sealed-before-write] o.pipes.Encryption != "" ==> hdrSealed[arg_hdr]
+//@   property C11
+//@   at call GetWriter assert [drive-taken-under-operation-lock] mutexHeld[addr(o.diskOperationLock)]
+//@   at call CloseWriter assert [drive-released-under-operation-lock] mutexHeld[addr(o.diskOperationLock)]
+//@   at call GetReader assert [reader-taken-under-operation-lock] mutexHeld[addr(o.diskOperationLock)]
+//@   at call CloseReader assert [reader-released-under-operation-lock] mutexHeld[addr(o.diskOperationLock)]
+//@   at call Index assert [index-rebuilt-under-operation-lock] mutexHeld[addr(o.diskOperationLock)]
+//@   at call Fetch assert [content-read-under-operation-lock] mutexHeld[addr(o.diskOperationLock)]
 //@   property C10 also C11
 //@   safety C10
 //@   requires o != nil && opsReady(o) && !driveHeld && getSrc != nil
+//@   requires [called-under-operation-lock] mutexHeld[addr(o.diskOperationLock)]
 //@   modifies *, driveHeld, tapeWrites, indexWrites, ghosts(C04), ghosts(C08), ghosts(C09), ghosts(C05), ghosts(C14), ghosts(C07), ghosts(C12)
 //@   ensures [drive-free] !driveHeld
 
@@ -100,6 +129,9 @@ package operations
 //@   at call Compress assert [compresses-into-encryptor] arg_dst == encryptor && arg_compressionFormat == o.pipes.Compression
 //@   at call Sign assert [signs-source-content] arg_src == f && arg_signatureFormat == o.pipes.Signature
 //@   at call Flush assert [whole-source-through-pipeline] copied[compressor] == signer || copied[compressor] == f
+//@   property C04
+//@   at call SignHeader assert [record-says-whether-content-is-replaced] hdr.PAXRecords["STFS.ReplacesContent"] == ite(replace, "true", "false")
+//@   at call SignHeader assert [metadata-only-record-carries-no-size] !replace ==> hdr.Size == 0
 //@   property C01
 //@   at call SignHeader#1 assert [indexed-header-is-written-header] hdrToAppend == deref(hdr)
 //@   at call SignHeader#2 assert [indexed-header-is-written-header-meta] hdrToAppend == deref(hdr)
@@ -110,6 +142,13 @@ package operations
 //@   property C09
 //@   at call WriteHeader#1 assert [sealed-before-write] o.pipes.Encryption != "" ==> hdrSealed[arg_hdr]
 //@   at call WriteHeader#2 assert [sealed-before-write-meta] o.pipes.Encryption != "" ==> hdrSealed[arg_hdr]
+//@   property C11
+//@   at call GetWriter assert [drive-taken-under-operation-lock] mutexHeld[addr(o.diskOperationLock)]
+//@   at call CloseWriter assert [drive-released-under-operation-lock] mutexHeld[addr(o.diskOperationLock)]
+//@   at call GetReader assert [reader-taken-under-operation-lock] mutexHeld[addr(o.diskOperationLock)]
+//@   at call CloseReader assert [reader-released-under-operation-lock] mutexHeld[addr(o.diskOperationLock)]
+//@   at call Index assert [index-rebuilt-under-operation-lock] mutexHeld[addr(o.diskOperationLock)]
+//@   at call Fetch assert [content-read-under-operation-lock] mutexHeld[addr(o.diskOperationLock)]
 //@   property C10 also C11
 //@   safety C10
 //@   requires o != nil && opsReady(o) && opsIdle(o) && getSrc != nil
